@@ -928,9 +928,80 @@ func witnesses(w *core.Writer) {
 		}
 		return p
 	}
-	for k, which := range []string{"R2", "R3"} {
+	// secondCrashImage (R5): the REAL recovery of a first crash image (a sequence in flight whose only action is durably
+	// Completed: fixSeq repairs the sequence to Completed in memory only) is run behind a vault that reads the plan back
+	// after every write; the durable image right after the block's terminal write is what a second crash leaves behind.
+	secondCrashImage := func(nonce string) (*workflow.Plan, string) {
+		ctx := context.Background()
+		p := &workflow.Plan{ID: uuid.Must(uuid.NewV7()), Name: "w", Descr: "w", State: mkState(R, true, false), SubmitTime: t0}
+		p.Blocks = []*workflow.Block{{ID: uuid.Must(uuid.NewV7()), Name: "w", Descr: "w", Concurrency: 1, State: mkState(R, true, false),
+			Sequences: []*workflow.Sequence{{ID: uuid.Must(uuid.NewV7()), Name: "w", Descr: "w", State: mkState(R, true, false),
+				Actions: []*workflow.Action{mkAct(0, nonce, C, true, true, ok)}}}}}
+		p.Blocks[0].Sequences[0].Actions[0].Attempts[0].Resp = hplug.Resp{Path: "a0"}
+		inner, err := sqlite.New(ctx, "", set.Reg, sqlite.WithInMemory())
+		if err != nil {
+			return nil, "sqlite: " + err.Error()
+		}
+		defer inner.Close(ctx)
+		if err := inner.Create(ctx, p); err != nil {
+			return nil, "create: " + err.Error()
+		}
+		sv := &snapVault{Vault: inner, id: p.ID, max: 200}
+		openSession(nonce, nil, 0)
+		defer closeSession(nonce)
+		ws, err := coercion.New(ctx, set.Reg, sv)
+		if err != nil {
+			return nil, "new: " + err.Error()
+		}
+		wctx, cancel := context.WithTimeout(ctx, 5*time.Second)
+		_, err = ws.Wait(wctx, p.ID)
+		cancel()
+		if err != nil {
+			return nil, "the recovery of the first crash image did not end"
+		}
+		sv.mu.Lock()
+		defer sv.mu.Unlock()
+		for _, img := range sv.snaps {
+			if img.Blocks[0].State.Status == workflow.Completed {
+				if img.State.Status == workflow.Running && img.Blocks[0].Sequences[0].State.Status == workflow.Running {
+					return img, ""
+				}
+				return nil, fmt.Sprintf("after the block's terminal write: plan %s, sequence %s", stTerm(img.State.Status), stTerm(img.Blocks[0].Sequences[0].State.Status))
+			}
+		}
+		return nil, "the recovery never wrote the block Completed"
+	}
+	for k, which := range []string{"R2", "R3", "R6", "R5"} {
 		nonce := "witness-" + which
-		p := build(which, nonce)
+		var p *workflow.Plan
+		switch which {
+		case "R6":
+			// crash after a run of the PLAN's continuous group failed while block 0 was executing: first sequence done,
+			// second one not started, the block's deferred group not run
+			p = &workflow.Plan{ID: uuid.Must(uuid.NewV7()), Name: "w", Descr: "w", State: mkState(R, true, false), SubmitTime: t0}
+			p.ContChecks = mkChk(F, true, true, mkAct(0, nonce, F, true, true, bad))
+			p.Blocks = []*workflow.Block{{ID: uuid.Must(uuid.NewV7()), Name: "w", Descr: "w", Concurrency: 1, State: mkState(R, true, false),
+				DeferredChecks: mkChk(N, false, false, mkAct(1, nonce, N, false, false)),
+				Sequences: []*workflow.Sequence{
+					{ID: uuid.Must(uuid.NewV7()), Name: "w", Descr: "w", State: mkState(C, true, true), Actions: []*workflow.Action{mkAct(2, nonce, C, true, true, ok)}},
+					{ID: uuid.Must(uuid.NewV7()), Name: "w", Descr: "w", State: mkState(N, false, false), Actions: []*workflow.Action{mkAct(3, nonce, N, false, false)}}}}}
+		case "R5":
+			var why string
+			if p, why = secondCrashImage(nonce + "-first"); p == nil {
+				w.Put(core.Case{ID: "witness-R5", Kind: "witness-absent", Observed: map[string]any{"witness": "R5", "what": why}})
+				continue
+			}
+			setNonce(p, nonce)
+		default:
+			p = build(which, nonce)
+		}
+		// for R6 also a real recovery of the image (the hooks run first, on the caller's copy; the store holds its own)
+		var pb *probe
+		if which == "R6" {
+			if pb = prepareProbe(set, p, nonce+"-probe"); pb.err != "" {
+				pb = nil
+			}
+		}
 		num := number(p)
 		before := plnTerm(p, num)
 		coq, obs, note := f.fixPlanCase(p, num, nonce, nil, "")
@@ -949,6 +1020,28 @@ func witnesses(w *core.Writer) {
 				s.Actions[1].State.Status == workflow.Running
 			obs["what"] = fmt.Sprintf("plan %s (entry End), block %s, sequence %s, its second action %s", stTerm(p.State.Status),
 				stTerm(p.Blocks[0].State.Status), stTerm(s.State.Status), stTerm(s.Actions[1].State.Status))
+		case "R6":
+			b := p.Blocks[0]
+			obs["finding_present"] = p.State.Status == workflow.Failed && b.State.Status == workflow.Running &&
+				b.Sequences[1].State.Status == workflow.NotStarted && b.DeferredChecks.State.Status == workflow.NotStarted
+			what := fmt.Sprintf("plan continuous group Failed: plan %s (entry End), block %s, its second sequence %s, its deferred group %s",
+				stTerm(p.State.Status), stTerm(b.State.Status), stTerm(b.Sequences[1].State.Status), stTerm(b.DeferredChecks.State.Status))
+			if pb != nil {
+				entry, info, quiet := pb.run(nil, 5*time.Second)
+				obs["recovery"] = info
+				if quiet {
+					ctx := context.Background()
+					_ = ctx
+					what += fmt.Sprintf("; real recovery of the image: entry %s, %v plugin calls, plan ends %v with %v object(s) durably Running", entry, info["plugin_calls"], info["final"], info["running_left"])
+				}
+			}
+			obs["what"] = what
+		case "R5":
+			s := p.Blocks[0].Sequences[0]
+			obs["finding_present"] = (p.State.Status == workflow.Completed || p.State.Status == workflow.Failed) &&
+				p.Blocks[0].State.Status == workflow.Completed && s.State.Status == workflow.Running
+			obs["what"] = fmt.Sprintf("second-crash image taken from a real recovery right after the block's terminal write (sequence repaired in memory, never written): "+
+				"plan %s (entry End), block %s, its sequence still %s", stTerm(p.State.Status), stTerm(p.Blocks[0].State.Status), stTerm(s.State.Status))
 		}
 		w.Put(core.Case{ID: "witness-" + which, Kind: "witness", Coq: fmt.Sprintf("(CWitness %d %s)", k, coq), Nontrivial: true,
 			Hash: core.Hash("witness", coq), Input: map[string]any{"witness": which, "before": before}, Observed: obs, Note: note})
